@@ -305,6 +305,51 @@ theorem numbered_lines_trailing (ls ls' : List Str)
   exact (step_trailing st a ws hws hno).symm
 
 open NemoVerif.NumberedLines in
+/-- Trailing whitespace on ANY SUBSET of the lines (the others - first lines of multi-line strings included - untouched): same records. -/
+theorem numbered_lines_trailing_some (ls ls' : List Str)
+    (h : Pointwise (fun l l' => l' = l ∨ ∃ ws, (∀ c ∈ ws, isPyWs c = true) ∧ l' = l ++ ws ∧ isOpener (strip l) = false) ls ls') :
+    numbered ls' = numbered ls := by
+  unfold numbered
+  symm
+  apply run_pointwise _ _ ls ls' h
+  intro st a b' hab
+  rcases hab with rfl | ⟨ws, hws, rfl, hno⟩
+  · rfl
+  · exact (step_trailing st a ws hws hno).symm
+
+open NemoVerif.NumberedLines in
+/-- Colang 1.0, FILE CONTENT (`content.split("\n")` included): a blank line (any `str.isspace` characters but a line break) inserted after
+    any line at a loop boundary leaves every record unchanged. -/
+theorem numbered_content_blank (pre post b : Str) (hb : strip b = []) (hnl : ∀ ch ∈ b, ch ≠ '\n')
+    (st' : NumberedLines.St) (out : List Rec) (hpre : runPre NumberedLines.St.init (splitNL pre) = .ok (st', out)) (hB : st'.atBoundary = true) :
+    numberedText (pre ++ '\n' :: (b ++ '\n' :: post)) = numberedText (pre ++ '\n' :: post) := by
+  unfold numberedText
+  rw [splitNL_append, splitNL_append, splitNL_append, splitNL_noNL b hnl]
+  exact numbered_lines_blank (splitNL pre) (splitNL post) b hb st' out hpre hB
+
+open NemoVerif.NumberedLines in
+/-- Colang 1.0, FILE CONTENT: trailing whitespace (no line break) appended to any line `l` that is not the first line of a multi-line string. -/
+theorem numbered_content_trailing (x y l ws : Str) (hl : ∀ ch ∈ l, ch ≠ '\n') (hws : ∀ c ∈ ws, isPyWs c = true) (hwnl : ∀ ch ∈ ws, ch ≠ '\n')
+    (hno : isOpener (strip l) = false) :
+    numberedText (x ++ '\n' :: (l ++ ws ++ '\n' :: y)) = numberedText (x ++ '\n' :: (l ++ '\n' :: y)) := by
+  unfold numberedText
+  have h1 : ∀ ch ∈ l ++ ws, ch ≠ '\n' := by
+    intro ch hch
+    rcases List.mem_append.1 hch with h | h
+    · exact hl ch h
+    · exact hwnl ch h
+  rw [splitNL_append, splitNL_append, splitNL_append, splitNL_append, splitNL_noNL _ h1, splitNL_noNL _ hl]
+  apply numbered_lines_trailing_some
+  exact pointwise_one _ (fun _ => Or.inl rfl) (splitNL x) (splitNL y) l (l ++ ws) (Or.inr ⟨ws, hws, rfl, hno⟩)
+
+open NemoVerif.NumberedLines in
+/-- non-vacuity of `numbered_content_blank` / `numbered_content_trailing`: content `def a⏎  u h` is at a boundary after its two lines;
+    `  u h` is not the first line of a multi-line string. -/
+example : (∃ st' out, runPre NumberedLines.St.init (splitNL ['d', 'e', 'f', ' ', 'a', '\n', ' ', ' ', 'u', ' ', 'h']) = .ok (st', out) ∧ st'.atBoundary = true) ∧
+    isOpener (strip [' ', ' ', 'u', ' ', 'h']) = false := by
+  refine ⟨⟨_, _, rfl, ?_⟩, ?_⟩ <;> decide
+
+open NemoVerif.NumberedLines in
 /-- kernel-checked witness (finite fact) that the exclusion above is needed: trailing blanks on the first line of a
     multi-line string change the record's `indentation`. -/
 theorem numbered_lines_trailing_opener_witness :
